@@ -469,3 +469,325 @@ Proof.
   replace (FS.be (renc cx)) with (wc_be cx) in RT by reflexivity.
   specialize (RT C4 Hval). cbn [FS.spec_form FS.enc_hops app] in RT. exact RT.
 Qed.
+
+(* ------------------------------------------------------------------ (c) the written tree as a Forest.tree *)
+
+Definition t_attr (cx : wcx) (f : eid -> list byte) (p : N * aval) : FO.attr :=
+  let F := fst (av_fd cx f (snd p)) in
+  let d := snd (av_fd cx f (snd p)) in
+  let ic := ic_of (snd (av_form (wc_enc cx) (snd p))) in
+  FO.mkAttr (AT.mkSpec (fst p) (FS.form_code F) ic)
+            (match FS.enc_layout (FS.form_layout F (renc cx)) (wc_be cx) d with Some b => b | None => [] end)
+            (match FS.form_value (renc cx) (fst p) ic F d with Some x => x | None => FS.VFlag false end).
+
+Definition sibw_of (cx : wcx) : FO.sibw := if e_fmt64 (wc_enc cx) then FO.W8 else FO.W4.
+
+Definition t_items (cx : wcx) (f : eid -> list byte) (sib : bool) (attrs : list (N * aval)) : list FO.item :=
+  (if sib then [FO.ISib (sibw_of cx)] else []) ++ map (fun p => FO.IAttr (t_attr cx f p)) attrs.
+
+(* the written entry tree in the vocabulary of Spec/Forest.v *)
+Fixpoint T (cx : wcx) (f : eid -> list byte) (d : die) : FO.tree :=
+  match d with
+  | Die _ tag sib attrs ch => FO.Node tag false (t_items cx f (sib && has_kids ch) attrs) (map (T cx f) ch)
+  end.
+
+(* what the reader side needs of the written tree: tags and attribute names are non-zero u16 (names other
+   than DW_AT_sibling, which `set` refuses), values within their Rust types *)
+Definition attr_rd_ok (cx : wcx) (p : N * aval) : Prop :=
+  0 < fst p < two16 /\ fst p <> 1 /\ av_decodable (snd p) /\ av_typed cx (snd p) /\ av_ranges cx (snd p).
+
+Fixpoint die_rd_ok (cx : wcx) (d : die) : Prop :=
+  match d with
+  | Die _ tag _ attrs ch =>
+      0 < tag < two16 /\ Forall (attr_rd_ok cx) attrs /\
+      (fix go (l : list die) : Prop := match l with [] => True | c :: r => die_rd_ok cx c /\ go r end) ch
+  end.
+Section rd_ok_list.
+  Variable cx : wcx.
+  Fixpoint dies_rd_ok (l : list die) : Prop :=
+    match l with [] => True | c :: r => die_rd_ok cx c /\ dies_rd_ok r end.
+End rd_ok_list.
+Lemma die_rd_ok_unfold cx id tag sib attrs ch :
+  die_rd_ok cx (Die id tag sib attrs ch) = (0 < tag < two16 /\ Forall (attr_rd_ok cx) attrs /\ dies_rd_ok cx ch).
+Proof. reflexivity. Qed.
+
+Lemma form_code_range F : 0 < FS.form_code F < two16.
+Proof. destruct F; vm_compute; split; reflexivity. Qed.
+
+(* one attribute: a DWARF attribute in the sense of Forest.attr_ok whose bytes are the written ones *)
+Lemma t_attr_ok dbg cx f name v ops :
+  av_write dbg cx v = Ok ops -> attr_rd_ok cx (name, v) ->
+  (forall id, UnitWr.blen (f id) = wsz (wc_enc cx)) ->
+  FO.attr_ok (renc cx) (t_attr cx f (name, v)) /\
+  FO.a_bytes (t_attr cx f (name, v)) = ops_resolved f ops /\
+  FO.a_spec (t_attr cx f (name, v)) = AT.mkSpec name (fst (av_form (wc_enc cx) v)) (ic_of (snd (av_form (wc_enc cx) v))) /\
+  FO.spec_ok (FO.a_spec (t_attr cx f (name, v))).
+Proof.
+  intros H [Hn [Hn1 [X [Ty R]]]] Hf. cbn [fst snd] in *.
+  destruct (av_resolve dbg cx f v ops H X Ty R Hf) as [C1 [C2 [C3 [C4 [C5 C6]]]]].
+  destruct (C6 name) as [val Hval].
+  unfold t_attr. cbn [fst snd]. rewrite C4, Hval. cbn [FO.a_bytes FO.a_spec].
+  split; [|split; [reflexivity|split; [now rewrite C1|]]].
+  - exists (FO.mkUAttr name (ic_of (snd (av_form (wc_enc cx) v))) O (fst (av_fd cx f v)) (snd (av_fd cx f v))).
+    split.
+    + unfold FO.uattr_ok. cbn [FO.u_form FO.u_hops FO.u_data FO.u_name]. repeat split; try assumption.
+    + unfold FO.resolve. cbn [FO.u_form FO.u_hops FO.u_data FO.u_name FO.u_implicit].
+      replace (FS.be (renc cx)) with (wc_be cx) by reflexivity. rewrite C4, Hval. reflexivity.
+  - unfold FO.spec_ok. cbn [AT.at_name AT.at_form AT.at_implicit].
+    split; [exact Hn|]. split; [apply form_code_range|].
+    destruct (snd (av_form (wc_enc cx) v)) as [z|] eqn:Ez.
+    + (* only ImplicitConst (version >= 5) carries a constant *)
+      split.
+      * destruct v; cbn [av_form] in Ez; repeat match type of Ez with context [if ?c then _ else _] => destruct c end;
+          cbn [snd] in Ez; try discriminate. injection Ez as <-. exact Ty.
+      * intros Hne. exfalso. assert (Q : fst (av_fd cx f v) <> FS.F_implicit_const).
+        { intros E. apply Hne. rewrite E. reflexivity. }
+        specialize (C3 Q). congruence.
+    + cbn [ic_of]. split; [lia|reflexivity].
+Qed.
+
+Lemma attrs_T dbg cx f next : forall attrs aops,
+  attrs_write dbg cx attrs = Ok aops -> Forall (attr_rd_ok cx) attrs ->
+  (forall id, UnitWr.blen (f id) = wsz (wc_enc cx)) ->
+  concat (map (FO.enc_item (wc_be cx) next) (map (fun p => FO.IAttr (t_attr cx f p)) attrs)) = ops_resolved f aops /\
+  Forall (fun it => match it with FO.IAttr a => FO.attr_ok (renc cx) a | FO.ISib _ => True end)
+         (map (fun p => FO.IAttr (t_attr cx f p)) attrs) /\
+  Forall FO.spec_ok (map FO.item_spec (map (fun p => FO.IAttr (t_attr cx f p)) attrs)) /\
+  (forall specs, attr_specs dbg (wc_enc cx) attrs = Ok specs ->
+     map FO.item_spec (map (fun p => FO.IAttr (t_attr cx f p)) attrs) = map rspec specs).
+Proof.
+  induction attrs as [|[n v] r IH]; intros aops H W Hf; cbn [attrs_write] in H.
+  - injection H as <-. cbn [map concat]. repeat split; try constructor.
+    intros specs Hs. cbn [attr_specs] in Hs. now injection Hs as <-.
+  - apply bind_ok_inv in H. destruct H as [o [Eo H]]. apply bind_ok_inv in H. destruct H as [ro [Ero H]].
+    injection H as <-. inversion W as [|? ? W1 W2]; subst.
+    destruct (t_attr_ok dbg cx f n v o Eo W1 Hf) as [A1 [A2 [A3 A4]]].
+    destruct (IH _ Ero W2 Hf) as [B1 [B2 [B3 B4]]].
+    cbn [map concat FO.enc_item FO.item_spec]. rewrite A2, B1, ops_resolved_app.
+    split; [reflexivity|]. split; [constructor; assumption|]. split; [constructor; assumption|].
+    intros specs Hs. cbn [attr_specs] in Hs.
+    destruct (av_form (wc_enc cx) v) as [form ic] eqn:EF.
+    apply bind_ok_inv in Hs. destruct Hs as [s [Es Hs]]. apply bind_ok_inv in Hs. destruct Hs as [rs [Ers Hs]].
+    injection Hs as <-. destruct (aspec_new_ok _ _ _ _ _ Es) as [S1 [S2 S3]].
+    cbn [map]. rewrite (B4 _ Ers), A3. cbn [fst snd]. f_equal.
+    unfold rspec. now rewrite S1, S2, S3.
+Qed.
+
+(* the code assignment of the written unit: position of the abbreviation in the unit's table *)
+Definition unrspec (s : AT.aspec) : aspec := mkAspec (AT.at_name s) (AT.at_form s) (AT.at_implicit s).
+Definition codes_of_tab (tab : list abbrev) : FO.coding := fun tag hc specs =>
+  match abbrev_find tab (mkAbbrev tag hc (map unrspec specs)) with
+  | Some i => N.of_nat i + 1
+  | None => 0
+  end.
+
+Lemma unrspec_rspec l : map unrspec (map rspec l) = l.
+Proof. induction l as [|[n fm c] r IH]; cbn; [reflexivity|]. now rewrite IH. Qed.
+
+Lemma codes_of_tab_lookup tab code ab :
+  abbrev_lookup tab code = Some ab -> NoDup tab ->
+  codes_of_tab tab (ab_tag ab) (ab_children ab) (map rspec (ab_attrs ab)) = code.
+Proof.
+  intros L ND. unfold codes_of_tab. rewrite unrspec_rspec.
+  replace (mkAbbrev (ab_tag ab) (ab_children ab) (ab_attrs ab)) with ab by (destruct ab; reflexivity).
+  unfold abbrev_lookup in L. destruct (code =? 0) eqn:Z; [discriminate|]. apply N.eqb_neq in Z.
+  assert (Hin : In ab tab) by (eapply nth_error_In; eassumption).
+  destruct (abbrev_find_in _ _ Hin) as [i F]. rewrite F. destruct (abbrev_find_some _ _ _ F) as [F1 _].
+  assert (i = N.to_nat (code - 1)); [|lia].
+  rewrite NoDup_nth_error in ND. apply ND; [apply nth_error_Some; congruence|congruence].
+Qed.
+
+Lemma has_children_T cx f d : FO.has_children (T cx f d) = has_kids (die_children d).
+Proof. destruct d as [id tag sib attrs ch]. cbn [T FO.has_children die_children orb]. now destruct ch. Qed.
+
+(* the abbreviation calculate_offsets registers for an entry is the abbreviation of its Forest image *)
+Lemma die_abbrev_T dbg cx f id tag sib attrs ch ab aops :
+  die_abbrev dbg (wc_enc cx) (Die id tag sib attrs ch) = Ok ab ->
+  attrs_write dbg cx attrs = Ok aops -> Forall (attr_rd_ok cx) attrs ->
+  (forall id, UnitWr.blen (f id) = wsz (wc_enc cx)) ->
+  ab_tag ab = tag /\ ab_children ab = has_kids ch /\
+  FO.t_specs (T cx f (Die id tag sib attrs ch)) = map rspec (ab_attrs ab).
+Proof.
+  intros H Ea W Hf. unfold die_abbrev in H.
+  apply bind_ok_inv in H. destruct H as [sibspec [Es H]]. apply bind_ok_inv in H. destruct H as [specs [Esp H]].
+  injection H as <-. cbn [ab_tag ab_children ab_attrs]. split; [reflexivity|]. split; [reflexivity|].
+  destruct (attrs_T dbg cx f 0 attrs aops Ea W Hf) as [_ [_ [_ B4]]].
+  unfold FO.t_specs. cbn [T FO.t_items]. unfold t_items. rewrite !map_app, (B4 _ Esp). f_equal.
+  destruct (sib && has_kids ch).
+  - apply bind_ok_inv in Es. destruct Es as [s [E1 Es]]. injection Es as <-.
+    destruct (aspec_new_ok _ _ _ _ _ E1) as [S1 [S2 S3]]. cbn [map FO.item_spec]. unfold rspec. rewrite S1, S2, S3.
+    unfold FO.sib_spec, sibw_of, word_form. destruct (e_fmt64 (wc_enc cx)); reflexivity.
+  - injection Es as <-. reflexivity.
+Qed.
+
+Lemma nodes_unfold t : FO.nodes t = t :: flat_map FO.nodes (FO.t_kids t).
+Proof. destruct t. reflexivity. Qed.
+
+Section encT.
+  Variables (dbg : bool) (cx : wcx) (f : eid -> list byte) (tab : list abbrev) (tbl : AR.abbrevs).
+  Hypothesis ND : NoDup tab.
+  Hypothesis Htbl : forall code a, abbrev_lookup tab code = Some a -> AR.tbl_get tbl code = Some (rabbrev code a).
+  Hypothesis Hf : forall id, UnitWr.blen (f id) = wsz (wc_enc cx).
+  Hypothesis Hlen : N.of_nat (length tab) < two64.
+
+  Definition node_good (t : FO.tree) : Prop :=
+    FO.node_ok (codes_of_tab tab) (renc cx) t /\
+    AR.tbl_get tbl (FO.t_code (codes_of_tab tab) t) = Some (FO.t_abbrev (codes_of_tab tab) t).
+
+  Definition encT_stmt (d : die) : Prop := forall pos ops,
+    write_die dbg cx d pos = Ok ops -> codes_ok dbg cx tab d -> die_rd_ok cx d ->
+    wc_unit_off cx <= pos -> pos + ops_len ops < 2 ^ 64 ->
+    ops_resolved f ops = FO.enc_tree (codes_of_tab tab) (wc_be cx) (pos - wc_unit_off cx) (T cx f d) /\
+    ops_len ops = FO.tree_size (codes_of_tab tab) (T cx f d) /\
+    Forall node_good (FO.nodes (T cx f d)) /\
+    Forall (FO.node_fits (codes_of_tab tab)) (FO.placed (codes_of_tab tab) (pos - wc_unit_off cx) (T cx f d)).
+
+  Lemma kidsT ch :
+    Forall encT_stmt ch ->
+    forall p cops,
+      write_list dbg cx ch p = Ok cops -> codes_ok_list dbg cx tab ch -> dies_rd_ok cx ch ->
+      wc_unit_off cx <= p -> p + ops_len cops < 2 ^ 64 ->
+      FO.on_list (FO.enc_tree (codes_of_tab tab) (wc_be cx)) (FO.tree_size (codes_of_tab tab)) (p - wc_unit_off cx)
+                 (map (T cx f) ch) = ops_resolved f cops /\
+      FO.sumN (map (FO.tree_size (codes_of_tab tab)) (map (T cx f) ch)) = ops_len cops /\
+      Forall node_good (flat_map FO.nodes (map (T cx f) ch)) /\
+      Forall (FO.node_fits (codes_of_tab tab))
+             (FO.on_list (FO.placed (codes_of_tab tab)) (FO.tree_size (codes_of_tab tab)) (p - wc_unit_off cx) (map (T cx f) ch)).
+  Proof.
+    induction 1 as [|c r Hc Hr IH]; intros p cops HW C D U B; cbn [write_list codes_ok_list dies_rd_ok map] in *.
+    - injection HW as <-. repeat split; constructor.
+    - apply bind_ok_inv in HW. destruct HW as [o [Eo HW]]. apply bind_ok_inv in HW. destruct HW as [ro [Ero HW]].
+      injection HW as <-. destruct C as [C1 C2]. destruct D as [D1 D2]. rewrite ops_len_app in B.
+      destruct (Hc p o Eo C1 D1 U ltac:(lia)) as [A1 [A2 [A3 A4]]].
+      destruct (IH (p + ops_len o) ro Ero C2 D2 ltac:(lia) ltac:(lia)) as [B1 [B2 [B3 B4]]].
+      rewrite !DieRdProofs.on_list_cons. rewrite <- A2.
+      replace (p - wc_unit_off cx + ops_len o) with (p + ops_len o - wc_unit_off cx) by lia.
+      rewrite <- A1, B1, ops_resolved_app, ops_len_app. cbn [FO.sumN fold_right flat_map].
+      split; [reflexivity|]. split; [fold (FO.sumN (map (FO.tree_size (codes_of_tab tab)) (map (T cx f) r))); lia|].
+      split; [apply Forall_app; split; assumption|apply Forall_app; split; assumption].
+  Qed.
+
+  Lemma encT_all : forall d, encT_stmt d.
+  Proof.
+    induction d as [id tag sib attrs ch IH] using die_ind2.
+    intros pos ops HW C D U B.
+    rewrite codes_ok_unfold in C. destruct C as [[code [ab [C1 [C2 C3]]]] Cl].
+    rewrite die_rd_ok_unfold in D. destruct D as [Dt [Da Dc]].
+    rewrite write_die_unfold in HW.
+    apply bind_ok_inv in HW. destruct HW as [u0 [_ HW]].
+    apply bind_ok_inv in HW. destruct HW as [code' [Ec HW]].
+    unfold idx_get, unwrap in Ec. rewrite C1 in Ec. injection Ec as <-.
+    apply bind_ok_inv in HW. destruct HW as [cb [Ecb HW]]. cbv zeta in HW.
+    apply bind_ok_inv in HW. destruct HW as [aops [Ea HW]].
+    set (codes := codes_of_tab tab) in *.
+    destruct (die_abbrev_T dbg cx f id tag sib attrs ch ab aops C2 Ea Da Hf) as [Q1 [Q2 Q3]].
+    assert (Ttag : FO.t_tag (T cx f (Die id tag sib attrs ch)) = tag) by reflexivity.
+    assert (Thc : FO.has_children (T cx f (Die id tag sib attrs ch)) = has_kids ch)
+      by (apply (has_children_T cx f (Die id tag sib attrs ch))).
+    assert (Titems : FO.t_items (T cx f (Die id tag sib attrs ch)) = t_items cx f (sib && has_kids ch) attrs) by reflexivity.
+    assert (Tkids : FO.t_kids (T cx f (Die id tag sib attrs ch)) = map (T cx f) ch) by reflexivity.
+    set (t := T cx f (Die id tag sib attrs ch)) in *.
+    (* the code *)
+    assert (Hc0 : 0 < code < two64).
+    { assert (Z := abbrev_lookup_nonzero _ _ _ C3). unfold abbrev_lookup in C3.
+      destruct (code =? 0); [discriminate|]. assert (L : (N.to_nat (code - 1) < length tab)%nat) by (apply nth_error_Some; congruence). lia. }
+    assert (Hcode : FO.t_code codes t = code).
+    { unfold FO.t_code. rewrite Q3, Ttag, Thc, <- Q1, <- Q2. apply codes_of_tab_lookup; assumption. }
+    assert (Ecb' : cb = enc_uleb code) by (apply write_uleb128_enc; [exact Ecb|unfold two64 in Hc0; lia]).
+    (* attributes *)
+    assert (HA := fun next : N => attrs_T dbg cx f next attrs aops Ea Da Hf).
+    assert (Laops : UnitWr.blen (ops_resolved f aops) = ops_len aops).
+    { apply (ops_resolved_len f (wsz (wc_enc cx))); [exact Hf|].
+      intros i w' Hi. assert (F := attrs_write_forall dbg cx _ (av_write_refw dbg cx) _ _ Ea).
+      rewrite Forall_forall in F. exact (F _ Hi). }
+    assert (Litems : FO.sumN (map FO.item_len (map (fun p => FO.IAttr (t_attr cx f p)) attrs)) = ops_len aops).
+    { rewrite <- (DieRdProofs.nlen_concat_items (wc_be cx) 0). destruct (HA 0) as [-> _]. exact Laops. }
+    (* the abbreviation as seen by the reader's table *)
+    assert (Htab : AR.tbl_get tbl (FO.t_code codes t) = Some (FO.t_abbrev codes t)).
+    { unfold FO.t_abbrev. rewrite Hcode, (Htbl _ _ C3). unfold rabbrev. now rewrite Q3, Ttag, Thc, Q1, Q2. }
+    assert (Hspecs : Forall FO.spec_ok (FO.t_specs t)).
+    { unfold FO.t_specs. rewrite Titems. unfold t_items. rewrite map_app. apply Forall_app. split.
+      - destruct (sib && has_kids ch); [|constructor]. constructor; [|constructor].
+        unfold sibw_of. destruct (e_fmt64 (wc_enc cx)); repeat split; (reflexivity || discriminate).
+      - destruct (HA 0) as [_ [_ [A3 _]]]. exact A3. }
+    assert (Hnode : node_good t).
+    { split; [|exact Htab]. split.
+      - unfold FO.abbrev_ok, FO.t_abbrev. cbn [FO.ab_code FO.ab_tag FO.ab_specs]. fold codes. rewrite Hcode, Ttag.
+        split; [exact Hc0|]. split; [exact Dt|exact Hspecs].
+      - rewrite Titems. unfold t_items. apply Forall_app. split.
+        + destruct (sib && has_kids ch); repeat constructor.
+        + destruct (HA 0) as [_ [A2 _]]. exact A2. }
+    assert (Hfit_attrs : forall q, Forall (fun it => match it with
+                    | FO.ISib w => q < 2 ^ (8 * N.of_nat (FO.sib_len w)) | FO.IAttr _ => True end)
+                    (map (fun p => FO.IAttr (t_attr cx f p)) attrs)).
+    { intros q. apply Forall_forall. intros it Hit. apply in_map_iff in Hit. destruct Hit as [p [<- _]]. exact I. }
+    destruct ch as [|c r].
+    - (* leaf *)
+      injection HW as <-. rewrite !ops_len_cons in *. cbn [op_bytes] in *. rewrite blen_nil in *.
+      cbn [has_kids] in *. rewrite andb_false_r in *. unfold t_items in Titems. cbn [app] in Titems.
+      assert (Hsz : FO.tree_size codes t = UnitWr.blen cb + ops_len aops).
+      { rewrite DieRdProofs.tree_size_unfold, Hcode, Thc, Titems, Litems, Ecb'. unfold FO.nlen, UnitWr.blen. lia. }
+      split.
+      { rewrite DieRdProofs.enc_tree_unfold, Hcode, Thc, Titems.
+        destruct (HA (pos - wc_unit_off cx + FO.tree_size codes t)) as [-> _].
+        rewrite !ops_resolved_cons. cbn [op_resolved op_bytes app]. rewrite app_nil_r, Ecb'. reflexivity. }
+      split; [rewrite Hsz; lia|]. split.
+      { rewrite nodes_unfold, Tkids. cbn [map flat_map]. constructor; [exact Hnode|constructor]. }
+      { rewrite DieRdProofs.placed_unfold, Tkids. cbn [map FO.on_list]. constructor; [|constructor].
+        unfold FO.node_fits. cbn [fst snd]. rewrite Titems. apply Hfit_attrs. }
+    - (* node *)
+      apply bind_ok_inv in HW. destruct HW as [cops [Ecops HW]].
+      apply bind_ok_inv in HW. destruct HW as [sibb [Esibb HW]]. injection HW as <-.
+      cbn [has_kids] in *. rewrite andb_true_r in *.
+      set (w := wsz (wc_enc cx)) in *.
+      assert (Hs : ops_len sibb = (if sib then w else 0) /\ forallb (fun o => negb (is_unit_ref o)) sibb = true).
+      { destruct sib.
+        - binds. injection Esibb as <-. rewrite ops_len_wb.
+          match goal with E : write_udata _ _ _ = Ok _ |- _ => rewrite (write_udata_len _ _ _ _ E) end. split; reflexivity.
+        - injection Esibb as <-. split; reflexivity. }
+      destruct Hs as [Ls Ps].
+      rewrite !ops_len_cons, !ops_len_app, ops_len_wb in *. cbn [op_bytes] in *. rewrite blen_nil, Ls in *.
+      change (UnitWr.blen [x00]) with 1 in *.
+      set (p0 := pos + (UnitWr.blen cb + (if sib then w else 0)) + ops_len aops) in *.
+      destruct (kidsT (c :: r) IH p0 cops Ecops Cl Dc ltac:(unfold p0; lia) ltac:(unfold p0; lia)) as [K1 [K2 [K3 K4]]].
+      fold codes in K1, K2, K4.
+      assert (Lsibitem : FO.sumN (map FO.item_len (t_items cx f sib attrs)) = (if sib then w else 0) + ops_len aops).
+      { unfold t_items. rewrite map_app, DieRdProofs.sumN_app, Litems. f_equal.
+        destruct sib; [|reflexivity]. unfold sibw_of, w, wsz. destruct (e_fmt64 (wc_enc cx)); reflexivity. }
+      assert (Hkids_off : FO.kids_off codes (pos - wc_unit_off cx) t = p0 - wc_unit_off cx).
+      { unfold FO.kids_off. rewrite Hcode, Titems, Lsibitem, <- Ecb'. unfold FO.nlen, p0, UnitWr.blen. lia. }
+      assert (Hsz : FO.tree_size codes t = UnitWr.blen cb + (if sib then w else 0) + ops_len aops + ops_len cops + 1).
+      { rewrite DieRdProofs.tree_size_unfold, Hcode, Thc, Titems, Tkids, Lsibitem, K2, <- Ecb'.
+        unfold FO.nlen, UnitWr.blen. lia. }
+      split.
+      { rewrite DieRdProofs.enc_tree_unfold, Hcode, Hkids_off, Thc, Titems, Tkids, K1.
+        unfold t_items. rewrite map_app, concat_app.
+        destruct (HA (pos - wc_unit_off cx + FO.tree_size codes t)) as [-> _].
+        rewrite !ops_resolved_cons, !ops_resolved_app. cbn [op_resolved op_bytes app].
+        rewrite (ops_resolved_noref f sibb Ps). replace (ops_resolved f [WB [x00]]) with [x00] by reflexivity.
+        rewrite <- Ecb'. f_equal. rewrite <- !app_assoc. f_equal.
+        destruct sib.
+        - apply bind_ok_inv in Esibb. destruct Esibb as [next [En Esibb]].
+          apply bind_ok_inv in Esibb. destruct Esibb as [b [Eb Esibb]]. injection Esibb as <-.
+          rewrite chk_sub_ok in En by (unfold p0 in *; lia). injection En as <-.
+          destruct (write_udata_enc _ _ _ _ Eb ltac:(unfold p0 in *; lia)) as [-> _].
+          unfold ops_bytes. cbn [flat_map op_bytes map concat FO.enc_item app]. rewrite !app_nil_r. f_equal.
+          + unfold sibw_of, w, wsz. destruct (e_fmt64 (wc_enc cx)); reflexivity.
+          + fold codes. rewrite Hsz. unfold p0. lia.
+        - injection Esibb as <-. reflexivity. }
+      split; [rewrite Hsz; lia|].
+      split.
+      { rewrite nodes_unfold, Tkids. constructor; [exact Hnode|exact K3]. }
+      { rewrite DieRdProofs.placed_unfold, Tkids, Hkids_off. constructor; [|exact K4].
+        unfold FO.node_fits. cbn [fst snd]. rewrite Titems. unfold t_items. apply Forall_app. split.
+        + destruct sib; [|constructor]. constructor; [|constructor].
+          apply bind_ok_inv in Esibb. destruct Esibb as [next [En Esibb]].
+          apply bind_ok_inv in Esibb. destruct Esibb as [b [Eb Esibb]].
+          rewrite chk_sub_ok in En by (unfold p0 in *; lia). injection En as <-.
+          destruct (write_udata_enc _ _ _ _ Eb ltac:(unfold p0 in *; lia)) as [_ [Bn _]].
+          rewrite Hsz. unfold sibw_of, w, wsz in *. unfold p0 in Bn.
+          destruct (e_fmt64 (wc_enc cx)); cbn [FO.sib_len];
+            (eapply N.le_lt_trans; [|exact Bn]); lia.
+        + apply Hfit_attrs. }
+  Qed.
+End encT.
